@@ -1714,7 +1714,7 @@ func (x *c01) ruleR5() {
 					// the clause must also recognise the message of this class of fault (added after
 					// defects where the opcode was listed but one message was not: "hash of unhashable
 					// type" under OpIf, the allocator's error under OpMakeChan)
-					if frags, ok := c01ClassMessages[c]; ok && !c01ClauseMentions(cls.Pkg.TypesInfo, listed[l], frags) {
+					if frags, ok := c01ClassMessages[c]; ok && !c01ClauseMentions(x.r.P, cls, listed[l], frags) {
 						if why, ok := c01Exceptions[R+" "+key+":message"]; ok {
 							o.Trivial("exception: %s", why)
 							continue
@@ -1759,20 +1759,37 @@ var c01ClassMessages = map[string][]string{
 
 // c01ClauseMentions reports whether the clause (following fallthrough into the next clauses) contains a
 // string constant holding one of the fragments.
-func c01ClauseMentions(info *types.Info, cc *ast.CaseClause, frags []string) bool {
+func c01ClauseMentions(p *Prog, cls *FuncInfo, cc *ast.CaseClause, frags []string) bool {
+	info := cls.Pkg.TypesInfo
 	found := false
-	ast.Inspect(cc, func(m ast.Node) bool {
-		// any constant string expression: a literal or a named constant
-		if e, ok := m.(ast.Expr); ok {
-			if s, ok := stringValue(info, e); ok {
-				for _, f := range frags {
-					if strings.Contains(s, f) {
-						found = true
+	seen := map[types.Object]bool{}
+	var scan func(n ast.Node, depth int)
+	scan = func(n ast.Node, depth int) {
+		ast.Inspect(n, func(m ast.Node) bool {
+			// any constant string expression: a literal or a named constant
+			if e, ok := m.(ast.Expr); ok {
+				if s, ok := stringValue(info, e); ok {
+					for _, f := range frags {
+						if strings.Contains(s, f) {
+							found = true
+						}
 					}
 				}
 			}
-		}
-		return true
-	})
+			// the clause may hand the message to a function of the package that recognises it
+			if call, ok := m.(*ast.CallExpr); ok && depth < 2 {
+				if hf := callee(info, call); hf != nil && hf.Pkg() == cls.Obj.Pkg() && !seen[hf] {
+					seen[hf] = true
+					for _, h := range p.Funcs(strings.TrimPrefix(strings.TrimPrefix(cls.Pkg.PkgPath, modulePath), "/")) {
+						if h.Obj == hf && !p.isTestFile(h.File) {
+							scan(h.Decl.Body, depth+1)
+						}
+					}
+				}
+			}
+			return true
+		})
+	}
+	scan(cc, 0)
 	return found
 }
